@@ -35,6 +35,8 @@ class Recorder:
     def __init__(self, cfg: dict, root: str):
         self.cfg = cfg
         self.root = os.path.realpath(root)
+        self.roots = [self.root]          # + the temporary git worktree while load_git runs
+        self.wt_pycache: list = []
         self.events: list = []
         self.depth = 0          # nesting of GriffeLoader.load
         self.agent_stack: list = []
@@ -47,11 +49,14 @@ class Recorder:
 
     def mid_from_path(self, path) -> str | None:
         """abstract module id for a file of the generated tree."""
-        p = os.path.realpath(str(path))
-        if not p.startswith(self.root + os.sep):
+        p = os.path.realpath(str(path)) if os.path.exists(str(path)) else os.path.abspath(str(path))
+        base = next((r for r in self.roots if p.startswith(r + os.sep)), None)
+        if base is None:
             return None
-        rel = os.path.relpath(p, os.path.join(self.root, "sp"))
+        rel = os.path.relpath(p, os.path.join(base, "sp"))
         parts = rel.split(os.sep)
+        if parts and parts[0].endswith(".zip"):      # a module inside the zip archive of the search path
+            parts = parts[1:]
         parts[-1] = parts[-1].split(".", 1)[0]
         if parts[-1] == "__init__":
             parts.pop()
@@ -87,13 +92,13 @@ def _audit(event: str, args):
         elif event == "exec":
             code = args[0]
             fn = getattr(code, "co_filename", "")
-            if isinstance(fn, str) and fn.startswith(rec.root + os.sep) and code.co_name == "<module>":
+            if isinstance(fn, str) and code.co_name == "<module>" and any(fn.startswith(r + os.sep) for r in rec.roots):
                 rec.emit("Import", m=rec.mid_from_path(fn))
         elif event == "compile":
             fn = args[1]
             if isinstance(fn, bytes):
                 fn = os.fsdecode(fn)
-            if isinstance(fn, str) and fn.startswith(rec.root + os.sep):
+            if isinstance(fn, str) and any(fn.startswith(r + os.sep) for r in rec.roots):
                 rec.aux.append({"ev": "Compile", "m": rec.mid_from_path(fn)})   # ast.parse of the visitor also lands here
     except Exception:  # noqa: BLE001
         rec.events.append({"ev": "TapError", "where": "audit", "tb": traceback.format_exc()[-400:]})
@@ -157,6 +162,29 @@ def install_taps(griffe):
         return res
 
     g_finder.ModuleFinder.find_spec = find_spec
+
+    # ---- load_git: the temporary worktree ---------------------------------------------------------------------
+    orig_worktree = g_loader.tmp_worktree
+
+    @contextlib.contextmanager
+    def tmp_worktree(repo=".", ref="HEAD"):
+        rec = REC
+        if rec is None:
+            with orig_worktree(repo, ref) as wt:
+                yield wt
+            return
+        with orig_worktree(repo, ref) as wt:
+            rec.roots.append(os.path.realpath(str(wt)))
+            rec.emit("Checkout")
+            try:
+                yield wt
+            finally:
+                for dp, dn, _fn in os.walk(os.path.join(str(wt), "sp")):
+                    if "__pycache__" in dn:
+                        rec.wt_pycache.append(os.path.relpath(os.path.join(dp, "__pycache__"), os.path.join(str(wt), "sp")))
+                rec.emit("Cleanup", **_path_fields())
+
+    g_loader.tmp_worktree = tmp_worktree
 
     # ---- GriffeLoader.load (re-entrant for external packages) -----------------------------------
     orig_load = L.load
@@ -435,24 +463,42 @@ def run_case(case: dict, workdir: str, ext_so: str | None) -> dict:
         leaked_before = sorted(n for n in mods0 if n in uni)
         ext = {"true": True, "false": False, "none": None}[cfg["external"]]
         form = cfg.get("objspec", "name")
-        objspec = {"name": "p", "relpath": "p", "abspath": pathlib.Path(b.sp, "p")}[form]
+        objspec = {"name": "p", "relpath": "p", "abspath": pathlib.Path(b.sp, "p"), "dotted": "p.X"}[form]
+        entry = cfg.get("entry", "load")
         cwd0 = os.getcwd()
         if form == "relpath":
             os.chdir(b.sp)
+        if entry == "load_git":
+            b.commit()
         REC = rec
         outcome = "Return"
         try:
-            griffe.load(
-                objspec,
-                submodules=cfg.get("submodules", True),
-                search_paths=[b.sp],
-                try_relative_path=form == "relpath",
-                allow_inspection=cfg["allow"],
-                force_inspection=cfg["force"],
-                find_stubs_package=cfg["findstubs"],
-                resolve_aliases=cfg["resolve"],
-                resolve_external=ext,
-            )
+            if entry == "load_git":
+                # the second caller of the protocol: the package is checked out of a real repository, options are forwarded
+                griffe.load_git(
+                    objspec,
+                    ref="HEAD",
+                    repo=root,
+                    submodules=cfg.get("submodules", True),
+                    search_paths=["sp"],
+                    allow_inspection=cfg["allow"],
+                    force_inspection=cfg["force"],
+                    find_stubs_package=cfg["findstubs"],
+                    resolve_aliases=cfg["resolve"],
+                    resolve_external=ext,
+                )
+            else:
+                griffe.load(
+                    objspec,
+                    submodules=cfg.get("submodules", True),
+                    search_paths=[b.sp, *b.extra_paths],
+                    try_relative_path=form == "relpath",
+                    allow_inspection=cfg["allow"],
+                    force_inspection=cfg["force"],
+                    find_stubs_package=cfg["findstubs"],
+                    resolve_aliases=cfg["resolve"],
+                    resolve_external=ext,
+                )
         except griffe.LoadingError:
             outcome = "LoadingError"
         except ModuleNotFoundError:
@@ -461,6 +507,8 @@ def run_case(case: dict, workdir: str, ext_so: str | None) -> dict:
             outcome = "FileNotFoundError"
         except ImportError:
             outcome = "ImportError"
+        except KeyError:
+            outcome = "KeyError"
         except SystemExit:
             outcome = "SystemExit"
         except BaseException as exc:  # noqa: BLE001
@@ -491,7 +539,7 @@ def run_case(case: dict, workdir: str, ext_so: str | None) -> dict:
             path_equal=list(sys.path) == rec.path0_copy,
             path_now=None if list(sys.path) == rec.path0_copy else [str(x) for x in sys.path][:6],
             saved_depth=len(rec.path_stack),
-            pycache=sorted(pyc_dirs),
+            pycache=sorted(set(pyc_dirs) | set(rec.wt_pycache)),
             events=rec.events,
             aux=rec.aux[:40],
             compiled_as=b.compiled_as,
